@@ -481,10 +481,19 @@ func checkURLStartTypestate(p *Program, r *Report) {
 	}
 	marked := ""
 	if edit != nil {
+		// the blocks of escapeAction after the edit is recorded, and the helpers it hands the context to there
+		var scan []*ssa.BasicBlock
 		for _, b := range ea.Blocks {
-			if !forwardReach(edit.Block(), b) {
-				continue
+			if forwardReach(edit.Block(), b) {
+				scan = append(scan, b)
 			}
+		}
+		for _, f := range actionTailFuncs(p) {
+			if f != ea {
+				scan = append(scan, f.Blocks...)
+			}
+		}
+		for _, b := range scan {
 			for _, in := range b.Instrs {
 				st, ok := in.(*ssa.Store)
 				if !ok {
